@@ -4,13 +4,14 @@ CONSTANTS
  VOID = 1000
  Deltas <- DeltasQ
  Bounds <- BoundsQ
+ Reports <- RepQ
  PhcBounds <- PhcQ
  PhcConfigured = TRUE
  Drift = 50000
  MaxPolls = 2
- MaxTicks = 2
+ MaxTicks = 1
  MaxStarts = 1
  PreSyncPolicy = "latch"
 VIEW ViewNoSid
-INVARIANTS Tracks NoTrustBeforeMeasure GraceSchedule PhcRule
+INVARIANTS Tracks NoTrustBeforeMeasure PhcRule
 CHECK_DEADLOCK FALSE
